@@ -19,40 +19,146 @@ import (
 var valueRe = regexp.MustCompile(`\(\s*(\S.*?)\s+(\(- \d+\)|-?\d+|true|false)\s*\)`)
 
 // getValues re-solves the obligation with the full context and asks for the values of terms.
-func (e *Engine) getValues(o *Oblig, terms []string) (map[string]string, bool) {
+func (e *Engine) getValues(o *Oblig, terms []string, pins ...string) (map[string]string, bool) {
 	vc := e.sliceVC(o, true, terms)
+	if len(pins) > 0 {
+		// pin the values of an earlier model so that both rounds describe the same counterexample
+		vc = strings.Replace(vc, "(check-sat)", strings.Join(pins, "\n")+"\n(check-sat)", 1)
+	}
 	for _, sp := range []solverSpec{solvers[0], solvers[2]} {
 		r, out, _ := runSolver(sp, vc, 20)
+		if d := os.Getenv("GOVC_DEBUG_REPLAY"); d != "" {
+			os.MkdirAll(d, 0o755)
+			os.WriteFile(filepath.Join(d, sanitizeFile(o.name)+"."+sp.name+".smt2"), []byte(vc), 0o644)
+			os.WriteFile(filepath.Join(d, sanitizeFile(o.name)+"."+sp.name+".out"), []byte(out), 0o644)
+		}
 		if r != "sat" {
 			continue
 		}
 		vals := map[string]string{}
-		// parse "((term value) (term value))" — terms are matched positionally
+		// the answer is a list of (term value) pairs in the order asked; read it positionally
 		i := strings.Index(out, "((")
 		if i < 0 {
 			continue
 		}
-		rest := out[i+1:]
-		for _, t := range terms {
-			j := strings.Index(rest, "("+t+" ")
-			if j < 0 {
-				continue
+		pairs := parseSexprList(out[i:])
+		// only the terms that were actually declared were asked for: recompute that list
+		asked := askedTerms(vc)
+		for k, pr := range pairs {
+			if k < len(asked) {
+				vals[asked[k]] = pr
 			}
-			tail := rest[j+len(t)+2:]
-			tail = strings.TrimSpace(tail)
-			var v string
-			if strings.HasPrefix(tail, "(- ") {
-				k := strings.Index(tail, ")")
-				v = "-" + strings.TrimSpace(tail[3:k])
-			} else {
-				k := strings.IndexAny(tail, ") \n")
-				v = tail[:k]
-			}
-			vals[t] = v
 		}
 		return vals, true
 	}
 	return nil, false
+}
+
+// askedTerms extracts the terms of the (get-value (...)) command of a VC, in order.
+func askedTerms(vc string) []string {
+	i := strings.LastIndex(vc, "(get-value (")
+	if i < 0 {
+		return nil
+	}
+	body := vc[i+len("(get-value ("):]
+	var out []string
+	depth := 0
+	start := -1
+	inBar := false
+	for k := 0; k < len(body); k++ {
+		c := body[k]
+		if c == '|' {
+			inBar = !inBar
+			if depth == 0 && inBar {
+				start = k
+			} else if depth == 0 && !inBar {
+				out = append(out, body[start:k+1])
+				start = -1
+			}
+			continue
+		}
+		if inBar {
+			continue
+		}
+		switch c {
+		case '(':
+			if depth == 0 {
+				start = k
+			}
+			depth++
+		case ')':
+			if depth == 0 {
+				return out
+			}
+			depth--
+			if depth == 0 {
+				out = append(out, body[start:k+1])
+				start = -1
+			}
+		}
+	}
+	return out
+}
+
+// parseSexprList reads "((t v) (t v) ...)" and returns the value of each pair as a decimal/boolean string.
+func parseSexprList(s string) []string {
+	var out []string
+	depth := 0
+	inBar := false
+	pairStart := -1
+	for k := 0; k < len(s); k++ {
+		c := s[k]
+		if c == '|' {
+			inBar = !inBar
+			continue
+		}
+		if inBar {
+			continue
+		}
+		switch c {
+		case '(':
+			depth++
+			if depth == 2 {
+				pairStart = k
+			}
+		case ')':
+			if depth == 2 && pairStart >= 0 {
+				pair := s[pairStart+1 : k]
+				out = append(out, lastValue(pair))
+				pairStart = -1
+			}
+			depth--
+			if depth == 0 {
+				return out
+			}
+		}
+	}
+	return out
+}
+
+// lastValue takes "term value" and returns value, normalising (- n) to -n.
+func lastValue(pair string) string {
+	pair = strings.TrimSpace(pair)
+	if strings.HasSuffix(pair, ")") {
+		// value is a parenthesised expression such as (- 5)
+		depth := 0
+		for k := len(pair) - 1; k >= 0; k-- {
+			if pair[k] == ')' {
+				depth++
+			} else if pair[k] == '(' {
+				depth--
+				if depth == 0 {
+					v := strings.TrimSpace(pair[k+1 : len(pair)-1])
+					if strings.HasPrefix(v, "- ") {
+						return "-" + strings.TrimSpace(v[2:])
+					}
+					return v
+				}
+			}
+		}
+	}
+	k := strings.LastIndexAny(pair, " \n\t")
+	return pair[k+1:]
 }
 
 // replayBuffer builds a Go test calling a free function of byte slices, strings, integers and booleans with the
@@ -131,7 +237,19 @@ func (w *World) replayBuffer(u *UnitResult, o *Oblig) (string, bool) {
 	}
 	bvals := map[string]string{}
 	if len(byteTerms) > 0 {
-		bv, ok := e.getValues(o, append(append([]string{}, terms...), byteTerms...))
+		var pins []string
+		for _, t := range terms {
+			if v, ok := vals[t]; ok && v != "" {
+				sv := v
+				if strings.HasPrefix(sv, "-") {
+					sv = "(- " + sv[1:] + ")"
+				}
+				if e.decls[t] == "Int" || e.decls[t] == "Bool" {
+					pins = append(pins, fmt.Sprintf("(assert (= %s %s))", t, sv))
+				}
+			}
+		}
+		bv, ok := e.getValues(o, append(append([]string{}, terms...), byteTerms...), pins...)
 		if ok {
 			bvals = bv
 		}
